@@ -13,7 +13,9 @@
    Part E  the pipelines parse-twice, add-base + make-owner, remove-base + make-owner
    Part F  whole histories under NoFault: the store invariant
    Part G  make-owner of a borrowed object that records blocks (the hypothesis [text_blocks m = []])
-   Part H  a successful make-owner releases nothing *)
+   Part H  a successful make-owner releases nothing
+   Part I  normalisation of a borrowed object that records blocks: the run agrees with the run on the
+           stripped object (a simulation through every stage, the done-mask says which components are equal) *)
 From Coq Require Import List NArith Bool Lia Arith Permutation.
 From UP Require Import Base.Chars Model.Uri Model.Parse Model.Common Model.Normalize Model.Resolve Model.Shorten
   Model.Recompose Model.Mem Model.ParseM Model.OpsM
@@ -809,3 +811,328 @@ Proof.
   - specialize (K b). lia.
   - specialize (K b). specialize (A b). unfold L in *. lia.
 Qed.
+
+(* ================================================================ Part I: normalisation of a borrowed object that records blocks *)
+(* two texts that agree once the block of a non-empty text is forgotten ([c] = true), or agree exactly *)
+Definition eqd (c : bool) (x y : mtext) : Prop := (if c then strip_t x else x) = (if c then strip_t y else y).
+Definition eqs (c : bool) (x y : list mseg) : Prop :=
+  (if c then map strip_seg x else x) = (if c then map strip_seg y else y).
+
+Lemma eqd_refl c x : eqd c x x. Proof. reflexivity. Qed.
+Lemma eqs_refl c x : eqs c x x. Proof. reflexivity. Qed.
+Lemma eqd_strip c x y : eqd c x y -> strip_t x = strip_t y.
+Proof. unfold eqd. destruct c; [auto|intros ->; reflexivity]. Qed.
+Lemma eqs_strip c x y : eqs c x y -> map strip_seg x = map strip_seg y.
+Proof. unfold eqs. destruct c; [auto|intros ->; reflexivity]. Qed.
+Lemma eqd_val c x y : eqd c x y -> t_val x = t_val y.
+Proof. intros H. apply eqd_strip in H. rewrite <- (strip_t_val x), <- (strip_t_val y), H. reflexivity. Qed.
+Lemma eqd_false x y : eqd false x y -> x = y. Proof. auto. Qed.
+Lemma eqs_false x y : eqs false x y -> x = y. Proof. auto. Qed.
+Lemma eqd_none c x y : eqd c x y -> t_val x = None -> x = y.
+Proof.
+  intros H E. pose proof (eqd_val c x y H) as V. apply eqd_strip in H.
+  rewrite (strip_t_none x E), (strip_t_none y) in H by congruence. exact H.
+Qed.
+Lemma eqs_text c x y : eqs c x y -> map sg_text x = map sg_text y.
+Proof.
+  intros H. apply eqs_strip in H. assert (X : forall l, map sg_text (map strip_seg l) = map sg_text l).
+  { intros l. rewrite map_map. apply map_ext. exact strip_seg_text. }
+  rewrite <- (X x), <- (X y), H. reflexivity.
+Qed.
+
+Section Sim.
+Variable cs : N.
+
+Lemma clear_lor_other done b b2 : clear b b2 = true -> clear (N.lor done b) b2 = clear done b2.
+Proof. unfold clear. intros H. apply N.eqb_eq in H. rewrite N.land_lor_distr_l, H, N.lor_0_r. reflexivity. Qed.
+Lemma clear_lor_self done b : clear b b = false -> clear (N.lor done b) b = false.
+Proof.
+  unfold clear. intros H. apply N.eqb_neq in H. apply N.eqb_neq. rewrite N.land_lor_distr_l. intros E.
+  apply N.lor_eq_0_iff in E. apply H. apply E.
+Qed.
+
+Lemma norm_text_strip f t s : norm_text cs false f (strip_t t) s = norm_text cs false f t s.
+Proof. unfold norm_text, strip_t. destruct t as [[[|c x]|] b]; reflexivity. Qed.
+Lemma eqd_norm_text c f x y s : eqd c x y -> norm_text cs false f x s = norm_text cs false f y s.
+Proof. intros H. apply eqd_strip in H. rewrite <- (norm_text_strip f x), <- (norm_text_strip f y), H. reflexivity. Qed.
+Lemma eqd_dup c x y s : eqd c x y -> dup_text cs x s = dup_text cs y s.
+Proof. intros H. apply eqd_strip in H. rewrite <- (dup_text_strip cs x), <- (dup_text_strip cs y), H. reflexivity. Qed.
+Lemma eqd_range_owner done b x y s : eqd (clear done b) x y -> range_owner cs done b x s = range_owner cs done b y s.
+Proof.
+  destruct (clear done b) eqn:C; intros H; [|rewrite (eqd_false _ _ H); reflexivity].
+  rewrite <- (range_owner_strip cs done b x s C), <- (range_owner_strip cs done b y s C). unfold eqd in H. rewrite H. reflexivity.
+Qed.
+Lemma range_owner_done done b t s t' done' s' b2 :
+  range_owner cs done b t s = (Some (t', done'), s') -> clear b b2 = true -> clear done' b2 = clear done b2.
+Proof.
+  unfold range_owner. intros H H2.
+  destruct (negb (N.land done b =? 0)%N); [injection H as _ <- _; reflexivity|].
+  destruct (t_val t) as [[|c x]|]; try (injection H as _ <- _; reflexivity).
+  destruct (dup_text cs t s) as [[t1|] s1]; [|discriminate H]. injection H as _ <- _. apply clear_lor_other. exact H2.
+Qed.
+
+Lemma fold_free_nodes_strip' rest : forall s,
+  fold_left (fun st x => free_blk (sg_node x) st) (map strip_seg rest) s = fold_left (fun st x => free_blk (sg_node x) st) rest s.
+Proof. induction rest as [|sg r IH]; intros s; [reflexivity|]. cbn [map fold_left]. rewrite strip_seg_node. apply IH. Qed.
+
+Lemma norm_segs_malloc_strip rest : forall acc s,
+  norm_segs_malloc cs acc (map strip_seg rest) s = norm_segs_malloc cs acc rest s.
+Proof.
+  induction rest as [|sg r IH]; intros acc s; [reflexivity|]. cbn [map norm_segs_malloc]. rewrite strip_seg_text.
+  destruct (sg_text sg) as [|c x] eqn:E.
+  - unfold strip_seg at 1. rewrite E. apply IH.
+  - rewrite strip_seg_node. destruct (alloc false (tlen (c :: x) * cs) s) as [[id|] s1].
+    + apply IH.
+    + change (strip_seg sg :: map strip_seg r) with (map strip_seg (sg :: r)). rewrite fold_free_nodes_strip'. reflexivity.
+Qed.
+
+(* the relation between the run on the stripped object (a) and the run on the object itself (b): components
+   whose bit is set in the done-mask have been replaced and are equal; the others agree up to forgotten blocks *)
+Definition sim (done : N) (a b : muri) : Prop :=
+  eqd (clear done B_SCHEME) (m_scheme a) (m_scheme b) /\ eqd (clear done B_USER) (m_userInfo a) (m_userInfo b)
+  /\ eqd (clear done B_HOST) (m_hostText a) (m_hostText b) /\ eqd (clear done B_HOST) (m_ipFuture a) (m_ipFuture b)
+  /\ eqd true (m_portText a) (m_portText b) /\ eqs (clear done B_PATH) (m_segs a) (m_segs b)
+  /\ eqd (clear done B_QUERY) (m_query a) (m_query b) /\ eqd (clear done B_FRAG) (m_fragment a) (m_fragment b)
+  /\ m_ip4 a = m_ip4 b /\ m_ip6 a = m_ip6 b /\ m_abs a = m_abs b /\ m_owner a = m_owner b.
+
+Lemma sim_start m : sim 0 (strip m) m.
+Proof.
+  assert (X : forall t, strip_t (strip_t t) = strip_t t).
+  { intros t. unfold strip_t at 1. rewrite strip_t_val. destruct (t_val t) as [[|c x]|] eqn:E; try reflexivity.
+    unfold strip_t. rewrite E. reflexivity. }
+  assert (Y : forall sg, strip_seg (strip_seg sg) = strip_seg sg).
+  { intros sg. unfold strip_seg at 1. rewrite strip_seg_text. destruct (sg_text sg) eqn:E; try reflexivity.
+    rewrite strip_seg_node. unfold strip_seg. rewrite E. reflexivity. }
+  unfold sim, strip, eqd, eqs. cbn. rewrite !X, map_map. repeat split. apply map_ext. exact Y.
+Qed.
+
+Lemma sim_erase done a b : sim done a b -> erase a = erase b.
+Proof.
+  intros (h1 & h2 & h3 & h4 & h5 & h6 & h7 & h8 & h9 & h10 & h11 & h12). unfold erase.
+  rewrite (eqd_val _ _ _ h1), (eqd_val _ _ _ h2), (eqd_val _ _ _ h3), (eqd_val _ _ _ h4), (eqd_val _ _ _ h5),
+    (eqs_text _ _ _ h6), (eqd_val _ _ _ h7), (eqd_val _ _ _ h8), h9, h10, h11, h12. reflexivity.
+Qed.
+
+Ltac dsim H := destruct H as (h1 & h2 & h3 & h4 & h5 & h6 & h7 & h8 & h9 & h10 & h11 & h12).
+Ltac mcbn :=
+  cbn [m_scheme m_userInfo m_hostText m_ip4 m_ip6 m_ipFuture m_portText m_segs m_query m_fragment m_abs m_owner
+       set_m_scheme set_m_userInfo set_m_query set_m_fragment set_m_hostText set_m_ipFuture set_m_segs set_m_portText
+       set_m_owner] in *.
+Ltac sim_done := unfold sim; mcbn;
+  repeat match goal with |- context [clear (N.lor ?d ?b) ?b2] => rewrite (clear_lor_other d b b2 eq_refl) end;
+  repeat split; first [assumption | apply eqd_refl | apply eqs_refl | idtac].
+
+(* ---- the text stages of normalisation *)
+Lemma n_scheme_sim cond f a b done s a' d' s' : sim done a b ->
+  n_text cs cond f B_SCHEME m_scheme set_m_scheme a done s = (Some (a', d'), s') ->
+  exists b', n_text cs cond f B_SCHEME m_scheme set_m_scheme b done s = (Some (b', d'), s') /\ sim d' a' b'.
+Proof.
+  intros S. pose proof S as S'. dsim S'. unfold n_text. rewrite (eqd_val _ _ _ h1), (eqd_norm_text _ f _ _ s h1).
+  destruct (cond && is_some (t_val (m_scheme b))).
+  - destruct (norm_text cs false f (m_scheme b) s) as [[t|] z]; [|intros H; discriminate H]. intros H. injection H as <- <- <-.
+    eexists. split; [reflexivity|]. sim_done.
+  - intros H. injection H as <- <- <-. exists b. split; [reflexivity|exact S].
+Qed.
+Lemma n_user_sim cond f a b done s a' d' s' : sim done a b ->
+  n_text cs cond f B_USER m_userInfo set_m_userInfo a done s = (Some (a', d'), s') ->
+  exists b', n_text cs cond f B_USER m_userInfo set_m_userInfo b done s = (Some (b', d'), s') /\ sim d' a' b'.
+Proof.
+  intros S. pose proof S as S'. dsim S'. unfold n_text. rewrite (eqd_val _ _ _ h2), (eqd_norm_text _ f _ _ s h2).
+  destruct (cond && is_some (t_val (m_userInfo b))).
+  - destruct (norm_text cs false f (m_userInfo b) s) as [[t|] z]; [|intros H; discriminate H]. intros H. injection H as <- <- <-.
+    eexists. split; [reflexivity|]. sim_done.
+  - intros H. injection H as <- <- <-. exists b. split; [reflexivity|exact S].
+Qed.
+Lemma n_query_sim cond f a b done s a' d' s' : sim done a b ->
+  n_text cs cond f B_QUERY m_query set_m_query a done s = (Some (a', d'), s') ->
+  exists b', n_text cs cond f B_QUERY m_query set_m_query b done s = (Some (b', d'), s') /\ sim d' a' b'.
+Proof.
+  intros S. pose proof S as S'. dsim S'. unfold n_text. rewrite (eqd_val _ _ _ h7), (eqd_norm_text _ f _ _ s h7).
+  destruct (cond && is_some (t_val (m_query b))).
+  - destruct (norm_text cs false f (m_query b) s) as [[t|] z]; [|intros H; discriminate H]. intros H. injection H as <- <- <-.
+    eexists. split; [reflexivity|]. sim_done.
+  - intros H. injection H as <- <- <-. exists b. split; [reflexivity|exact S].
+Qed.
+Lemma n_frag_sim cond f a b done s a' d' s' : sim done a b ->
+  n_text cs cond f B_FRAG m_fragment set_m_fragment a done s = (Some (a', d'), s') ->
+  exists b', n_text cs cond f B_FRAG m_fragment set_m_fragment b done s = (Some (b', d'), s') /\ sim d' a' b'.
+Proof.
+  intros S. pose proof S as S'. dsim S'. unfold n_text. rewrite (eqd_val _ _ _ h8), (eqd_norm_text _ f _ _ s h8).
+  destruct (cond && is_some (t_val (m_fragment b))).
+  - destruct (norm_text cs false f (m_fragment b) s) as [[t|] z]; [|intros H; discriminate H]. intros H. injection H as <- <- <-.
+    eexists. split; [reflexivity|]. sim_done.
+  - intros H. injection H as <- <- <-. exists b. split; [reflexivity|exact S].
+Qed.
+
+(* ---- the host stage *)
+Lemma n_host_sim mask a b done s a' d' s' : sim done a b ->
+  OwnershipProofs.n_host cs mask a done s = (Some (a', d'), s') ->
+  exists b', OwnershipProofs.n_host cs mask b done s = (Some (b', d'), s') /\ sim d' a' b'.
+Proof.
+  intros S. pose proof S as S'. dsim S'. unfold OwnershipProofs.n_host.
+  destruct (bit mask M_HOST); [|intros H; injection H as <- <- <-; exists b; split; [reflexivity|exact S]].
+  rewrite (eqd_val _ _ _ h4), (eqd_val _ _ _ h3), h9, h10.
+  destruct (t_val (m_ipFuture b)) as [xf|] eqn:Ef.
+  - rewrite (eqd_norm_text _ lowercase _ _ s h4).
+    destruct (norm_text cs false lowercase (m_ipFuture b) s) as [[t|] z]; [|intros H; discriminate H].
+    intros H. injection H as <- <- <-. eexists. split; [reflexivity|]. sim_done.
+  - assert (Fa : m_ipFuture a = m_ipFuture b) by (apply (eqd_none _ _ _ h4); rewrite (eqd_val _ _ _ h4); exact Ef).
+    destruct (t_val (m_hostText b)) as [xh|] eqn:Eh;
+      [|intros H; injection H as <- <- <-; exists b; split; [reflexivity|exact S]].
+    destruct (m_ip4 b) eqn:E4b; [intros H; injection H as <- <- <-; exists b; split; [reflexivity|exact S]|].
+    destruct (m_ip6 b) eqn:E6b; [intros H; injection H as <- <- <-; exists b; split; [reflexivity|exact S]|].
+    rewrite (eqd_norm_text _ (fun x => lowercase_except_pct (fix_pct x)) _ _ s h3).
+    destruct (norm_text cs false (fun x => lowercase_except_pct (fix_pct x)) (m_hostText b) s) as [[t|] z]; [|intros H; discriminate H].
+    intros H. injection H as <- <- <-. eexists. split; [reflexivity|]. sim_done; try congruence. rewrite Fa. apply eqd_refl.
+Qed.
+
+(* ---- the path stage *)
+Lemma rds_frame rel owned m m' s : m_segs m' = m_segs m -> m_abs m' = m_abs m -> m_host_set m' = m_host_set m ->
+  remove_dot_segments_m rel owned m' s =
+  (let '(ok, m2, s2) := remove_dot_segments_m rel owned m s in (ok, set_m_segs (m_segs m2) m', s2)).
+Proof.
+  intros E1 E2 E3. assert (X : set_m_segs (m_segs m) m' = m') by (rewrite <- E1; apply set_m_segs_same).
+  unfold remove_dot_segments_m. rewrite E1, E2, E3. destruct (m_segs m) as [|sg r] eqn:Es.
+  - rewrite Es, X. reflexivity.
+  - destruct (rds_walk_m rel (m_host_set m) (m_abs m) owned [] (sg :: r) s) as [[ok segs'] s2]. reflexivity.
+Qed.
+
+Lemma fet_frame m m' s : m_segs m' = m_segs m -> m_host_set m' = m_host_set m ->
+  fix_empty_trail_m m' s = (let '(m3, s3) := fix_empty_trail_m m s in (set_m_segs (m_segs m3) m', s3)).
+Proof.
+  intros E1 E2. assert (X : set_m_segs (m_segs m) m' = m') by (rewrite <- E1; apply set_m_segs_same).
+  unfold fix_empty_trail_m. rewrite E1, E2.
+  destruct (negb (m_host_set m)); [|rewrite X; reflexivity].
+  destruct (m_segs m) as [|sg [|sg2 r]] eqn:Es; try (rewrite Es, X; reflexivity).
+  destruct (sg_text sg); [reflexivity|]. rewrite Es, X. reflexivity.
+Qed.
+
+Lemma n_path_sim mask a b done s a' d' x y s' : sim done a b ->
+  n_path_full cs mask a done s = (Some (a', d'), x, y, s') ->
+  exists b' xb yb, n_path_full cs mask b done s = (Some (b', d'), xb, yb, s') /\ sim d' a' b'.
+Proof.
+  intros S. pose proof S as S'. dsim S'. unfold n_path_full.
+  destruct (bit mask M_PATH); [|intros H; injection H as <- <- _ _ <-; exists b, b, done; split; [reflexivity|exact S]].
+  assert (Hh : m_host_set a = m_host_set b) by (unfold m_host_set; rewrite (sim_erase _ _ _ S); reflexivity).
+  rewrite (eqd_val _ _ _ h1), h11, Hh.
+  set (rel := negb (is_some (t_val (m_scheme b))) && negb (m_abs b) && negb (m_host_set b)).
+  rewrite <- (norm_segs_malloc_strip (m_segs a)), (eqs_strip _ _ _ h6), norm_segs_malloc_strip.
+  destruct (norm_segs_malloc cs [] (m_segs b) s) as [[ok segs] s1]. destruct ok; [|intros H; discriminate H].
+  set (ow := false || negb (N.land (N.lor done B_PATH) B_PATH =? 0)%N).
+  rewrite (rds_frame rel ow (set_m_segs segs b) (set_m_segs segs a) s1 eq_refl h11 Hh).
+  pose proof (rds_frame rel ow (set_m_segs segs b) (set_m_segs segs b) s1 eq_refl eq_refl eq_refl) as Fb.
+  destruct (remove_dot_segments_m rel ow (set_m_segs segs b) s1) as [[ok2 b2] s2]. injection Fb as Fb.
+  destruct ok2; [|intros H; discriminate H].
+  assert (Hs2 : m_segs (set_m_segs (m_segs b2) (set_m_segs segs a)) = m_segs b2) by reflexivity.
+  assert (Hh2 : m_host_set (set_m_segs (m_segs b2) (set_m_segs segs a)) = m_host_set b2) by (rewrite Fb; exact Hh).
+  rewrite (fet_frame b2 _ s2 Hs2 Hh2).
+  pose proof (fet_frame b2 b2 s2 eq_refl eq_refl) as Fc.
+  destruct (fix_empty_trail_m b2 s2) as [b3 s3]. injection Fc as Fc.
+  intros H. injection H as <- <- _ _ <-. exists b3, b3, (N.lor done B_PATH). split; [reflexivity|].
+  rewrite Fc, Fb. sim_done.
+Qed.
+
+(* ---- the engine, started with any done-mask *)
+Ltac tail3 d h5 h6 ga :=
+  unfold path_step; mcbn; change (N.land d B_PATH =? 0)%N with (clear d B_PATH);
+  let Cp := fresh "Cp" in
+  destruct (clear d B_PATH) eqn:Cp; cbn [negb];
+  [ rewrite <- (own_segs_strip cs _ []), (eqs_strip _ _ _ h6), own_segs_strip;
+    match goal with |- context [own_segs cs [] ?l ?z] => destruct (own_segs cs [] l z) as [[sg'|] z6] end;
+    [|intros H; discriminate H]
+  | apply eqs_false in h6; subst ga ];
+  mcbn; rewrite (eqd_dup _ _ _ _ h5);
+  match goal with |- context [dup_text cs ?t ?z] => destruct (dup_text cs t z) as [[t7|] z7] end;
+  [|intros H; discriminate H | |intros H; discriminate H]; intros H; exact H.
+
+Lemma engine_sim a b done s m' d' s' : sim done a b ->
+  make_owner_engine cs a done s = (true, m', d', s') -> make_owner_engine cs b done s = (true, m', d', s').
+Proof.
+  intros S H. rewrite engine_unfold in H. rewrite engine_unfold. revert H. unfold engine'.
+  destruct a as [sa ua ha i4a i6a fa pa ga qa ra aba owa]. destruct b as [sb ub hb i4b i6b fb pb gb qb rb abb owb].
+  dsim S. mcbn. subst i4b i6b abb owb.
+  rewrite (eqd_range_owner done B_SCHEME sa sb s h1).
+  destruct (range_owner cs done B_SCHEME sb s) as [[[t1 d1]|] z1] eqn:E1; [|intros H; discriminate H].
+  rewrite <- (range_owner_done _ _ _ _ _ _ _ B_USER E1 eq_refl) in h2.
+  rewrite <- (range_owner_done _ _ _ _ _ _ _ B_HOST E1 eq_refl) in h3, h4.
+  rewrite <- (range_owner_done _ _ _ _ _ _ _ B_PATH E1 eq_refl) in h6.
+  rewrite <- (range_owner_done _ _ _ _ _ _ _ B_QUERY E1 eq_refl) in h7.
+  rewrite <- (range_owner_done _ _ _ _ _ _ _ B_FRAG E1 eq_refl) in h8.
+  rewrite (eqd_range_owner d1 B_USER ua ub z1 h2).
+  destruct (range_owner cs d1 B_USER ub z1) as [[[t2 d2]|] z2] eqn:E2; [|intros H; discriminate H].
+  rewrite <- (range_owner_done _ _ _ _ _ _ _ B_HOST E2 eq_refl) in h3, h4.
+  rewrite <- (range_owner_done _ _ _ _ _ _ _ B_PATH E2 eq_refl) in h6.
+  rewrite <- (range_owner_done _ _ _ _ _ _ _ B_QUERY E2 eq_refl) in h7.
+  rewrite <- (range_owner_done _ _ _ _ _ _ _ B_FRAG E2 eq_refl) in h8.
+  rewrite (eqd_range_owner d2 B_QUERY qa qb z2 h7).
+  destruct (range_owner cs d2 B_QUERY qb z2) as [[[t3 d3]|] z3] eqn:E3; [|intros H; discriminate H].
+  rewrite <- (range_owner_done _ _ _ _ _ _ _ B_HOST E3 eq_refl) in h3, h4.
+  rewrite <- (range_owner_done _ _ _ _ _ _ _ B_PATH E3 eq_refl) in h6.
+  rewrite <- (range_owner_done _ _ _ _ _ _ _ B_FRAG E3 eq_refl) in h8.
+  rewrite (eqd_range_owner d3 B_FRAG ra rb z3 h8).
+  destruct (range_owner cs d3 B_FRAG rb z3) as [[[t4 d4]|] z4] eqn:E4; [|intros H; discriminate H].
+  rewrite <- (range_owner_done _ _ _ _ _ _ _ B_HOST E4 eq_refl) in h3, h4.
+  rewrite <- (range_owner_done _ _ _ _ _ _ _ B_PATH E4 eq_refl) in h6.
+  unfold host_step. mcbn. rewrite (eqd_val _ _ _ h4), (eqd_val _ _ _ h3).
+  change (N.land d4 B_HOST =? 0)%N with (clear d4 B_HOST).
+  destruct (clear d4 B_HOST) eqn:Ch; cbn [negb].
+  - destruct (t_val fb) as [xf|] eqn:Ef.
+    + rewrite (eqd_range_owner d4 B_HOST fa fb z4) by (rewrite Ch; exact h4).
+      destruct (range_owner cs d4 B_HOST fb z4) as [[[t5 d5]|] z5] eqn:E5; [|intros H; discriminate H].
+      rewrite <- (range_owner_done _ _ _ _ _ _ _ B_PATH E5 eq_refl) in h6.
+      tail3 d5 h5 h6 ga.
+    + assert (Fa : fa = fb) by (apply (eqd_none _ _ _ h4); rewrite (eqd_val _ _ _ h4); exact Ef). subst fa.
+      destruct (t_val hb) as [xh|] eqn:Eh.
+      * rewrite (eqd_range_owner d4 B_HOST ha hb z4) by (rewrite Ch; exact h3).
+        destruct (range_owner cs d4 B_HOST hb z4) as [[[t5 d5]|] z5] eqn:E5; [|intros H; discriminate H].
+        rewrite <- (range_owner_done _ _ _ _ _ _ _ B_PATH E5 eq_refl) in h6.
+        tail3 d5 h5 h6 ga.
+      * assert (Ha : ha = hb) by (apply (eqd_none _ _ _ h3); rewrite (eqd_val _ _ _ h3); exact Eh). subst ha.
+        tail3 d4 h5 h6 ga.
+  - apply eqd_false in h3, h4. subst ha fa. tail3 d4 h5 h6 ga.
+Qed.
+
+(* ---- uriNormalizeSyntaxExMm on a borrowed object: the run on the object agrees with the run on the stripped one *)
+Ltac failcase :=
+  match goal with |- context [prevent_leakage ?x ?d ?z] => destruct (prevent_leakage x d z) end;
+  let H := fresh in intros H; discriminate H.
+
+Lemma normalize_strip mask m s m' s' : m_owner m = false -> mask <> 0%N ->
+  normalize_m cs mask (strip m) s = (URI_SUCCESS, m', s') -> normalize_m cs mask m s = (URI_SUCCESS, m', s').
+Proof.
+  intros Ho Hmask. assert (Ho' : m_owner (strip m) = false) by exact Ho.
+  rewrite (normalize_b_eq cs mask _ s Ho'), (normalize_b_eq cs mask _ s Ho). unfold normalize_b.
+  apply N.eqb_neq in Hmask. rewrite Hmask.
+  destruct (n_text cs (bit mask M_SCHEME) lowercase B_SCHEME m_scheme set_m_scheme (strip m) 0%N s) as [[[a1 d1]|] z1] eqn:E1;
+    [|failcase].
+  destruct (n_scheme_sim _ _ _ _ _ _ _ _ _ (sim_start m) E1) as (b1 & F1 & S1). rewrite F1.
+  destruct (OwnershipProofs.n_host cs mask a1 d1 z1) as [[[a2 d2]|] z2] eqn:E2; [|failcase].
+  destruct (n_host_sim _ _ _ _ _ _ _ _ S1 E2) as (b2 & F2 & S2). rewrite F2.
+  destruct (n_text cs (bit mask M_USER_INFO) fix_pct B_USER m_userInfo set_m_userInfo a2 d2 z2) as [[[a3 d3]|] z3] eqn:E3;
+    [|failcase].
+  destruct (n_user_sim _ _ _ _ _ _ _ _ _ S2 E3) as (b3 & F3 & S3). rewrite F3.
+  destruct (n_path_full cs mask a3 d3 z3) as [[[[[a4 d4]|] x4] y4] z4] eqn:E4; [|failcase].
+  destruct (n_path_sim _ _ _ _ _ _ _ _ _ _ S3 E4) as (b4 & xb & yb & F4 & S4). rewrite F4.
+  destruct (n_text cs (bit mask M_QUERY) fix_pct B_QUERY m_query set_m_query a4 d4 z4) as [[[a5 d5]|] z5] eqn:E5;
+    [|failcase].
+  destruct (n_query_sim _ _ _ _ _ _ _ _ _ S4 E5) as (b5 & F5 & S5). rewrite F5.
+  destruct (n_text cs (bit mask M_FRAGMENT) fix_pct B_FRAG m_fragment set_m_fragment a5 d5 z5) as [[[a6 d6]|] z6] eqn:E6;
+    [|failcase].
+  destruct (n_frag_sim _ _ _ _ _ _ _ _ _ S5 E6) as (b6 & F6 & S6). rewrite F6.
+  destruct (make_owner_engine cs a6 d6 z6) as [[[[|] a7] d7] z7] eqn:E7; [|failcase].
+  rewrite (engine_sim a6 b6 d6 z6 a7 d7 z7 S6 E7). intros H; exact H.
+Qed.
+
+(* C12_normalize_borrowed without "a borrowed object records no text block" *)
+Lemma normalize_any_blocks mask m s : nofault s -> mwf_host m -> m_owner m = false -> mask <> 0%N ->
+  exists m' s', normalize_m cs mask m s = (URI_SUCCESS, m', s')
+    /\ erase m' = normalize mask (erase m)
+    /\ m_owner m' = true /\ all_owned m' = true /\ depends_on_input m' = false
+    /\ mwf m' /\ fresh_blocks s s' m' /\ nofault s'.
+Proof.
+  intros Hnf Hh Ho Hmask. assert (Ho' : m_owner (strip m) = false) by exact Ho.
+  destruct (C12_normalize_borrowed_stmt cs mask (strip m) s Hnf (mwf_strip m Hh Ho) Ho' Hmask) as (m' & s' & E & R).
+  exists m', s'. rewrite erase_strip in R. split; [|exact R]. apply normalize_strip; assumption.
+Qed.
+End Sim.
+
